@@ -130,6 +130,10 @@ func (ex *Exec) callFunction(fn *ssa.Function, args []Value, caller *Frame) Valu
 	name := fn.String()
 	if st, ok := stubs[name]; ok {
 		ex.StubsRun[name]++
+		if ex.st.sched != nil && fsVisible(name) {
+			// file-system calls are visible operations of the concurrency harnesses
+			ex.yield("fs")
+		}
 		return st(ex, caller, args)
 	}
 	if o := fn.Origin(); o != nil {
@@ -776,6 +780,11 @@ func (ex *Exec) doCall(fr *Frame, call *ssa.CallCommon) Value {
 		return ex.callBuiltin(fr, f, args, call)
 	}
 	return ex.callValue(fr, fv, args, false)
+}
+
+func fsVisible(name string) bool {
+	return strings.HasPrefix(name, "os.") || strings.HasPrefix(name, "(*os.File).") || strings.HasPrefix(name, "golang.org/x/exp/mmap.") ||
+		strings.HasPrefix(name, "(*golang.org/x/exp/mmap.ReaderAt).") || name == "io.Copy"
 }
 
 func allowedExternal(fn *ssa.Function) bool {
